@@ -263,6 +263,39 @@ func check(c Case) (o ev.Outcome) {
 			}
 			// a node whose statement stands in the submodule that only the older revision includes: its own-prefix
 			// paths lead into the older revision's tree, not into the one the bare module name denotes
+			// a node that a module importing both revisions grafted into the older one: from there the prefix of
+			// its undated import leads into the current revision's tree, the dated one's stays here
+			if c.Set.OlderUserText() != nil {
+				if oo := oroot.Dir["older-only"]; oo != nil && oo.Dir["from-olduser"] != nil {
+					st := oo.Dir["from-olduser"]
+					cur := obs.MS.Modules[c.Set.Older]
+					if tt := trees[c.Set.Older]; cur != nil && tt != nil && tt.Root != nil {
+						croot := yang.ToEntry(cur)
+						names := make([]string, 0, len(tt.Root.Children))
+						for k := range tt.Root.Children {
+							names = append(names, k)
+						}
+						sort.Strings(names)
+						for _, k := range names {
+							want := croot.Dir[k]
+							if want == nil {
+								continue
+							}
+							lookups++
+							classes["from-a-node-grafted-into-the-older-revision"] = true
+							if got := st.Find("/pl:" + k); got != want {
+								fail("absolute-lookup", "absolute/from-older-revision/current-revision", "from %s (grafted into %s@2019-05-05 by a module that imports both revisions): Find(%q) returned %s, the node is %s", st.Path(), c.Set.Older, "/pl:"+k, desc(got), desc(want))
+								return
+							}
+						}
+					}
+					lookups++
+					if got, want := st.Find("/po:older-only"), oo; got != want {
+						fail("absolute-lookup", "absolute/from-older-revision/older-revision", "from %s: Find(\"/po:older-only\") returned %s, the node is %s", st.Path(), desc(got), desc(want))
+						return
+					}
+				}
+			}
 			ownStarts := append([]*yang.Entry(nil), starts...)
 			if e := oroot.Dir["oldsub-c"]; e != nil {
 				ownStarts = append(ownStarts, e) // the submodule's text imports nothing: own-prefix paths only
